@@ -365,3 +365,32 @@ type Explanation struct {
 	Rules       map[string]string
 	Assumptions []string
 }
+
+// Borrow runs another property's rules on the same program and keeps, under
+// rule id `to`, the obligations that match: a mechanism decided for one
+// property is reported by every property for which it is a necessary condition.
+// Floors and exceptions declared by the borrowed rules are discarded.
+func (c *Ctx) Borrow(to string, from func(*Ctx), match func(o Obligation) bool) (kept int) {
+	sub := NewCtx(c.Prog, c.Property, c.Tier)
+	func() {
+		defer func() {
+			if r := recover(); r != nil {
+				sub.Und("engine", "panic in borrowed rules", 0, "%v", r)
+			}
+		}()
+		from(sub)
+	}()
+	for _, o := range sub.Obls {
+		if o.Status == Info || !match(o) {
+			continue
+		}
+		o.Detail = "[" + o.Rule + "] " + o.Detail
+		o.Rule = to
+		c.Obls = append(c.Obls, o)
+		kept++
+	}
+	for k := range sub.FnsAnalysed {
+		c.FnsAnalysed[k] = true
+	}
+	return kept
+}
